@@ -16,7 +16,9 @@
      fingerprint given by the assignment [fp from bcast to round];
    * validity of an arriving message is decided AT THE RECIPIENT by the oracle [validity]:
      the handler sees [m] with [m_valid := validity (recipient state) m].  The default oracle
-     [keep_valid] leaves m_valid as it is (honest emitters: true; injected: adversary's choice);
+     [keep_valid] leaves m_valid as it is (honest emitters: true; injected: adversary's choice).
+     The oracle is consulted on arrival, with the recipient's state at that moment (a message that is
+     queued for a later round keeps the flag it got on arrival);
    * after every Accept the Listen() channel is drained completely (h_pending := 0). *)
 From Coq Require Import List NArith ZArith Bool Arith.
 From MPS Require Import Model.Handler.
